@@ -19,8 +19,10 @@ import (
 	"os"
 	"os/exec"
 	"path/filepath"
+	"runtime"
 	"sort"
 	"strings"
+	"sync"
 	"syscall"
 	"time"
 
@@ -144,6 +146,14 @@ func accepts(w *wl.Wallet, cands map[string][]byte) map[string]string {
 
 // unlockKey is the entry of an acceptance map that reports a wallet no accepted passphrase unlocks.
 const unlockKey = "<unlock>"
+
+// replayWatchdog bounds one replay of one operation (normally milliseconds to a second).
+const replayWatchdog = 120 * time.Second
+
+var (
+	hungMu  sync.Mutex
+	hungOps = map[string]int{}
+)
 
 // openExt reopens dir without faults, trying the candidate public passphrases, and reads the extended state.
 func openExt(dir string, pubs map[string][]byte, privs map[string][]byte) (ext Ext, err error) {
@@ -447,7 +457,62 @@ func faultHistory(run *vh.Run, rng *vh.Rng, hi int) {
 			return
 		}
 		// exec on a copy with a plan; returns outcome and the running-instance pre snapshot
+		var execInner func(tag string, plan wl.FaultPlan, cont bool) (outcome, wl.Snap, *wl.FaultDB, string, bool)
+		// execOn runs one replay under a watchdog: a wallet call that never returns (a lock left held by the faulted
+		// operation) must not hang the check; it is a violation when the dump shows wallet code parked on a mutex
 		execOn := func(tag string, plan wl.FaultPlan, cont bool) (outcome, wl.Snap, *wl.FaultDB, string, bool) {
+			type resT struct {
+				o  outcome
+				s  wl.Snap
+				f  *wl.FaultDB
+				d  string
+				ok bool
+			}
+			hungMu.Lock()
+			skip := hungOps[op.Kind] >= 2
+			hungMu.Unlock()
+			if skip && plan.Kind != "" {
+				// two replays of this kind of operation already hung for the whole watchdog: enough witnesses
+				run.Count("replays_skipped_after_two_hangs:"+op.Kind, 1)
+				return outcome{}, wl.Snap{}, nil, "", false
+			}
+			ch := make(chan resT, 1)
+			go func() {
+				o, sn, f, d, ok := execInner(tag, plan, cont)
+				ch <- resT{o, sn, f, d, ok}
+			}()
+			select {
+			case r := <-ch:
+				return r.o, r.s, r.f, r.d, r.ok
+			case <-time.After(replayWatchdog):
+				buf := make([]byte, 8<<20)
+				dump := string(buf[:runtime.Stack(buf, true)])
+				var blocked []string
+				for _, blk := range strings.Split(dump, "\n\n") {
+					head := strings.SplitN(blk, "\n", 2)[0]
+					if !(strings.Contains(head, "[sync.Mutex.Lock") || strings.Contains(head, "[semacquire") || strings.Contains(head, "[sync.RWMutex")) {
+						continue
+					}
+					for _, l := range strings.Split(blk, "\n") {
+						if strings.HasPrefix(l, "massnet.org/mass/poc/wallet/") {
+							blocked = append(blocked, strings.SplitN(l, "(0x", 2)[0])
+							break
+						}
+					}
+				}
+				hungMu.Lock()
+				hungOps[op.Kind]++
+				hungMu.Unlock()
+				if len(blocked) > 0 {
+					run.Violate(hi*1000+j*100+99, "wallet-call-never-returned-after-faulted-operation", map[string]string{"op": op.Kind, "fault": plan.Kind},
+						map[string]interface{}{"blocked_on_a_lock_in": blocked, "fault": plan, "history": trace, "watchdog_s": replayWatchdog.Seconds()})
+				} else {
+					run.Drop("replay watchdog fired without wallet code parked on a lock")
+				}
+				return outcome{}, wl.Snap{}, nil, "", false
+			}
+		}
+		execInner = func(tag string, plan wl.FaultPlan, cont bool) (outcome, wl.Snap, *wl.FaultDB, string, bool) {
 			dst := filepath.Join(base, tag)
 			os.RemoveAll(dst)
 			if err := wl.CopyDir(wd.dir, dst); err != nil {
